@@ -142,6 +142,41 @@ var kvModel = porcupine.Model{
 	},
 }
 
+// The maps handed to Merge stay the caller's: whatever the other clients do to the store
+// afterwards must not show in them (checked once all clients have finished).
+var c13Merged []struct{ m, want map[string]any }
+
+func keepMerged(m map[string]any) map[string]any {
+	c13Merged = append(c13Merged, struct{ m, want map[string]any }{m, copyMap(m)})
+	return m
+}
+
+func checkMergedUntouched() {
+	for _, e := range c13Merged {
+		same := len(e.m) == len(e.want)
+		for k, v := range e.want {
+			if g, ok := e.m[k]; !ok || g != v {
+				same = false
+			}
+		}
+		if !same {
+			core.Problem("a map passed to Merge was changed by later store operations of other clients: it now has %d entries (%v ...), the caller put %d", len(e.m), firstKeys(e.m, 3), len(e.want))
+		}
+	}
+}
+
+func firstKeys(m map[string]any, n int) []string {
+	var ks []string
+	for k := range m {
+		ks = append(ks, k)
+	}
+	sort.Strings(ks)
+	if len(ks) > n {
+		ks = ks[:n]
+	}
+	return ks
+}
+
 func doStoreOp(s *flyt.SharedStore, op int) kvOut {
 	var o kvOut
 	val := func(v any, ok bool) {
@@ -191,15 +226,15 @@ func doStoreOp(s *flyt.SharedStore, op int) kvOut {
 			}
 		}
 	case oMerge:
-		s.Merge(map[string]any{"a": 3, "b": 3})
+		s.Merge(keepMerged(map[string]any{"a": 3, "b": 3}))
 	case oMergeB4:
-		s.Merge(map[string]any{"b": 4})
+		s.Merge(keepMerged(map[string]any{"b": 4}))
 	case oMergeBig:
 		m := map[string]any{"b": 3}
 		for i := 0; i < 130; i++ {
 			m[fmt.Sprintf("f%03d", i)] = 0
 		}
-		s.Merge(m)
+		s.Merge(keepMerged(m))
 	case oClear:
 		s.Clear()
 	case oGetIntA:
@@ -283,6 +318,7 @@ func (sc linScn) scenario() Scenario {
 	}
 	body := func() {
 		label = "skipped"
+		c13Merged = c13Merged[:0]
 		// choose the program
 		progs := make([][]int, len(sc.lens))
 		muts, reads := 0, 0
@@ -331,6 +367,7 @@ func (sc linScn) scenario() Scenario {
 		for _, th := range ths {
 			core.Join(th)
 		}
+		checkMergedUntouched()
 		m := kvModel
 		m.Init = func() interface{} { return init }
 		lin := porcupine.CheckOperations(m, hist)
